@@ -23,28 +23,32 @@ PROPS = {
              "schedule; oracle: reply i reaches the client within 3 rounds / 1 fake second of the round in which the proxy had been handed "
              "the backend replies of requests 0..i; non-trivial = at least one request completed while a later one was already outstanding; "
              "distinct = distinct proxy-visible event-sequence hash; variant burst: one client pipelines 1025-4200 requests at once and the "
-             "oldest (plus up to two others) is answered late, so thousands of completed replies must be flushed at once behind it",
-        quick=dict(budget_s=80, profiles=[P("C09", 200), P("C09", 14, "burst")]),
-        thorough=dict(budget_s=1200, profiles=[P("C09", 6000), P("C09", 600, "burst")]),
-        reach=["c09_completed_while_later_outstanding", "c09_burst_over_1024_behind_head"],
+             "oldest (plus up to two others) is answered late, so thousands of completed replies must be flushed at once behind it; variant slowreader: the client does not read for 150-600 ms "
+             "(small send buffer: the proxy's writes block, replies queue up), then reads - everything complete must still arrive (no lag bound here); variant trickle: some replies arrive as a few bytes glued to the end "
+             "of the previous reply and the rest 40-400 ms later (the complete reply before them must not wait for that)",
+        quick=dict(budget_s=80, profiles=[P("C09", 200), P("C09", 14, "burst"), P("C09", 30, "slowreader"), P("C09", 100, "trickle")]),
+        thorough=dict(budget_s=1200, profiles=[P("C09", 6000), P("C09", 600, "burst"), P("C09", 1500, "slowreader"), P("C09", 4000, "trickle")]),
+        reach=["c09_completed_while_later_outstanding", "c09_burst_over_1024_behind_head", "c09_blocked_client_writes"],
     ),
     "C16": dict(
         level="fault_enumeration",
         rule="request timeout T in [50,800] ms; pipelines of 1-10 single/split requests, a subset of fragments stalls forever (~T) or answers "
              "late (T+300..1500 ms); seeded schedules incl. proxy stalls; thorough additionally enumerates stalled position(s) x kind x "
-             "forever|late for pipelines <= 5; non-trivial = at least one fragment stalled/late; distinct = proxy-visible event-sequence hash",
-        quick=dict(budget_s=70, profiles=[P("C16", 300)]),
-        thorough=dict(budget_s=1200, profiles=[P("C16", 8000), P("C16", 0, enumerate=["enum:%d" % i for i in range(750)])]),
-        reach=["c16_stalled_fragments"],
+             "forever|late for pipelines <= 5; variant hung: a whole node stops reading and answering (connections stay open, small send buffers: the "
+             "proxy's writes to it block) - its requests must get an error in position, all others are served; non-trivial = at least one fragment stalled/late; distinct = proxy-visible event-sequence hash",
+        quick=dict(budget_s=70, profiles=[P("C16", 300), P("C16", 100, "hung")]),
+        thorough=dict(budget_s=1200, profiles=[P("C16", 8000), P("C16", 3000, "hung"), P("C16", 0, enumerate=["enum:%d" % i for i in range(750)])]),
+        reach=["c16_stalled_fragments", "c16_requests_for_hung_node", "c16_blocked_backend_writes"],
     ),
     "C02": dict(
         level="exploration",
         rule="every documented single-key command (round-robin over docs/command.md) with exotic argument bytes (empty, binary, CR/LF, RESP look-alikes, "
              "64 KiB+-1, MiB in thorough) and scripted replies of all RESP2 shapes/sizes, under segmentation, short reads/writes, EAGAIN, tiny "
              "send buffers, slow readers, read buffers of 16 B..64 KiB, with/without password and replicas; oracle: backend bytes = client bytes with "
-             "only the command name lower-cased, client bytes = backend reply bytes; non-trivial = a short read/write or EAGAIN actually occurred",
-        quick=dict(budget_s=80, profiles=[P("C02", 500)]),
-        thorough=dict(budget_s=1500, profiles=[P("C02", 15000), P("C02", 600, "big")]),
+             "only the command name lower-cased, client bytes = backend reply bytes; variant aligned: requests and replies arrive split over several reads "
+             "with piece lengths tied to message boundaries and to the lengths of earlier messages on the same connection; non-trivial = a short read/write or EAGAIN actually occurred",
+        quick=dict(budget_s=80, profiles=[P("C02", 400), P("C02", 200, "aligned")]),
+        thorough=dict(budget_s=1500, profiles=[P("C02", 15000), P("C02", 600, "big"), P("C02", 8000, "aligned")]),
         reach=["ShortReads", "ShortWrites", "EAGAINWrite", "c02_big_messages"],
     ),
     "C04": dict(
@@ -63,7 +67,7 @@ PROPS = {
              "request's keys of that slot in order; non-trivial = request spans several slots. The input dimension is sampled.",
         quick=dict(budget_s=80, profiles=[P("C06", 400)]),
         thorough=dict(budget_s=1500, profiles=[P("C06", 12000), P("C06", 200, "huge")]),
-        reach=["c06_multislot_requests"],
+        reach=["c06_multislot_requests", "c06_rejected_oversized"],
     ),
     "C07": dict(
         level="exploration",
@@ -91,19 +95,20 @@ PROPS = {
         level="exploration",
         rule="one connection per node; 1-5 clients with deep pipelines (single, split, SET;GET pairs on private keys), interleavings of client reads, "
              "write signals (thorough: >256 queued tasks per poll), backend replies and blocked/short backend writes; oracle: per (client,node) request "
-             "indices arrive non-decreasing, and each pipelined GET observes its SET; non-trivial = several clients or a blocked/short backend write",
-        quick=dict(budget_s=80, profiles=[P("C10", 300)]),
-        thorough=dict(budget_s=1500, profiles=[P("C10", 8000), P("C10", 300, "tasks")]),
-        reach=["c10_set_get_pairs"],
+             "indices arrive non-decreasing, and each pipelined GET observes its SET; profile C10redir (stale view, MOVED/ASK): two requests of one client redirected by the same "
+             "node to the same node are executed there in the order sent; non-trivial = several clients or a blocked/short backend write",
+        quick=dict(budget_s=80, profiles=[P("C10", 300), P("C10redir", 120), P("C10redir", 60, "moved")]),
+        thorough=dict(budget_s=1500, profiles=[P("C10", 8000), P("C10", 300, "tasks"), P("C10redir", 3000), P("C10redir", 3000, "moved")]),
+        reach=["c10_set_get_pairs", "c10_redirected_same_path_pairs"],
     ),
     "C11": dict(
         level="fault_enumeration",
-        rule="the model answers a chosen subset of fragments with an error from a 14-entry catalogue (ERR, WRONGTYPE, LOADING, CLUSTERDOWN, TRYAGAIN, "
-             "CROSSSLOT, READONLY, BUSY, NOSCRIPT, OOM, MASTERDOWN, ...); quick: seeded random subsets/orders; thorough: every request kind x fragment "
+        rule="the model answers a chosen subset of fragments with an error from a 21-entry catalogue (ERR, WRONGTYPE, LOADING, CLUSTERDOWN, TRYAGAIN, "
+             "CROSSSLOT, READONLY, BUSY, NOSCRIPT, OOM, MASTERDOWN, the full MISCONF text, error lines of 127-131, 200 and 1000 bytes, ...); quick: seeded random subsets/orders; thorough: every request kind x fragment "
              "count k<=4 x non-empty erroring subset x error kind, each under a seeded arrival order; oracle: single-key -> error verbatim, split -> "
              "some error reply, never a success value, later requests and other clients still served, proxy alive; non-trivial = a backend error occurred",
         quick=dict(budget_s=80, profiles=[P("C11", 400)]),
-        thorough=dict(budget_s=1500, profiles=[P("C11", 8000), P("C11", 0, enumerate=["enum:%d" % i for i in range(4 * 14 * 26)])]),
+        thorough=dict(budget_s=1500, profiles=[P("C11", 8000), P("C11", 0, enumerate=["enum:%d" % i for i in range(4 * 21 * 26)])]),
         reach=["c11_error_replies"],
     ),
     "C12": dict(
@@ -163,23 +168,25 @@ PROPS = {
         rule="histories of 1-4 (thorough: up to 8) cluster descriptions derived by seeded mutations (failover, new master/replica, replica removed / flagged "
              "fail, fail?, handshake, noaddr, disconnected / loading / master link down / re-parented, slot ranges moved, migration markers, failed or "
              "ghost masters), with per-node lag and interleaved unusable probe answers (error, nil, +OK, oversized, truncated, too few nodes, garbage); "
+             "variant return: a known replica drops out for 6 s and comes back listed as connected while its INFO says loading / link down; "
              "oracle by routing, anchored on the first probe reply carrying the final description that the proxy consumed (+3 fake seconds, fair "
              "schedule): writes reach the claiming master, reads only it or its usable replicas, unclaimed slots are refused; "
              "non-trivial = history non-empty and probes were served",
-        quick=dict(budget_s=90, profiles=[P("C14", 120), P("C14", 50, "valid-only"), P("C14", 70, "yield"), P("C14", 60, "flap")]),
-        thorough=dict(budget_s=1800, profiles=[P("C14", 6000), P("C14", 2000, "long"), P("C14", 2000, "valid-only"), P("C14", 4000, "yield"), P("C14", 3000, "flap")]),
-        reach=["c14_history_steps", "c14_probe_requests_served", "yield_parked_cluster.servers-set", "yield_parked_cluster.before-flag"],
+        quick=dict(budget_s=90, profiles=[P("C14", 120), P("C14", 50, "valid-only"), P("C14", 70, "yield"), P("C14", 60, "flap"), P("C14", 40, "return")]),
+        thorough=dict(budget_s=1800, profiles=[P("C14", 6000), P("C14", 2000, "long"), P("C14", 2000, "valid-only"), P("C14", 4000, "yield"), P("C14", 3000, "flap"), P("C14", 2000, "return")]),
+        reach=["c14_history_steps", "c14_probe_requests_served", "yield_parked_cluster.servers-set", "yield_parked_cluster.before-flag", "c14_rediscovered_nodes"],
     ),
     "C20": dict(
         level="exploration",
         rule="3-4 masters with 2-4 healthy replicas each, replica reads enabled, about 300 read commands per master (12 read command types) mixed with "
              "writes from 1-3 pipelining clients under seeded schedules; variant with one replica refusing connections; variant pattern: one client "
-             "repeating a short regular cycle of (master, read|write) steps (strict rotation, write-then-read pairs, seeded cycles); oracle: every replica that was "
+             "repeating a short regular cycle of (master, read|write) steps (strict rotation, write-then-read pairs, seeded cycles); variant recover: a replica is unreachable for 1.5-4 s with sparse reads of its "
+             "master meanwhile, comes back, and 20 fake seconds later 300 reads per master must reach it like every other replica; oracle: every replica that was "
              "healthy for the whole run served at least one of >=200 reads of its master (miss probability < 1e-35 under uniform choice), writes only "
              "at masters; non-trivial = more than 400 reads observed",
-        quick=dict(budget_s=90, profiles=[P("C20", 50), P("C20", 20, "banned"), P("C20", 60, "pattern")]),
-        thorough=dict(budget_s=1200, profiles=[P("C20", 2000), P("C20", 600, "banned"), P("C20", 3000, "pattern")]),
-        reach=["c20_reads"],
+        quick=dict(budget_s=90, profiles=[P("C20", 50), P("C20", 20, "banned"), P("C20", 60, "pattern"), P("C20", 25, "recover")]),
+        thorough=dict(budget_s=1200, profiles=[P("C20", 2000), P("C20", 600, "banned"), P("C20", 3000, "pattern"), P("C20", 1500, "recover")]),
+        reach=["c20_reads", "c20_recover_dial_refused"],
     ),
     "C18": dict(
         level="exploration",
